@@ -118,11 +118,11 @@ theorem txv_onSessInit (e : Ep) (p : PeerInit) :
           sentInit := true,
           emitted := e.emitted ++ [.sessInit e.cfg.keepalive e.cfg.segMru sizeMax e.cfg.nodeId (sessionExt e.cfg)],
           inSess := true, kaTime := min e.cfg.keepalive p.keepalive, idleTime := e.cfg.idle,
-          sendSegSize := min e.cfg.segInit p.segMru }
+          sendSegSize := min e.cfg.segInit p.segMru, peerInit := some p }
       else
         { e.txView with
           inSess := true, kaTime := min e.cfg.keepalive p.keepalive, idleTime := e.cfg.idle,
-          sendSegSize := min e.cfg.segInit p.segMru } := by
+          sendSegSize := min e.cfg.segInit p.segMru, peerInit := some p } := by
   unfold onSessInit
   simp only []
   rw [txv_setState]
@@ -395,6 +395,28 @@ theorem txInv_step (e : Ep) (ev : Ev) (P : LState) (hi : TxInv e P) (htm : Timer
       · split
         · exact ⟨P, txInv_doClose _ _ (txInv_of_view rfl hi)⟩
         · exact ⟨P, txInv_sendSessTerm _ P 1 false (txInv_of_view rfl hi)⟩
+  | modulate raw =>
+    simp only []
+    split
+    · exact ⟨P, hi⟩
+    · split
+      · rename_i p hp
+        refine ⟨P, ?_⟩
+        have hv : e.txView.peerInit = some p := hp
+        obtain ⟨hpos, _, hem⟩ := hi.mru.1 p hv
+        have hclamp : clampSeg raw p.segMru ≤ p.segMru := Nat.min_le_right _ _
+        have hcpos : 0 < clampSeg raw p.segMru := by
+          unfold clampSeg segSizeMin
+          have : (10240 : Int) ≤ max raw 10240 := Int.le_max_right _ _
+          have h2 : 10240 ≤ (max raw 10240).toNat := by omega
+          omega
+        exact { hi with seg := fun _ => hcpos,
+                        mru := ⟨fun q hq => by
+                                  have hq' : e.peerInit = some q := hq
+                                  have : q = p := by rw [hp] at hq'; exact (Option.some.inj hq').symm
+                                  subst this; exact ⟨hpos, hclamp, hem⟩,
+                                hi.mru.2.1, hi.mru.2.2⟩ }
+      · exact ⟨P, hi⟩
 
 end Tcpcl
 end DtnVerif
